@@ -46,6 +46,55 @@
 #include <time.h>
 time_t __wrap_time (time_t *t) { time_t v = 1700000000 ; if (t) *t = v ; return v ; }
 
+
+/* ---- resource ledger (C16): every live heap block is tagged with the handle number the current script line addresses; after a
+   failed open and after sf_close the blocks still tagged with that handle (minus the harness' own persistent buffers) are leaks.
+   Descriptors: |/proc/self/fd| must equal base + sum over live handles of what each held right after its open; same for the
+   entries of the library's temporary directory (TMPDIR is pointed at a private directory).  Only under ASan (allocator hooks). */
+#if defined (__has_feature)
+#if __has_feature (address_sanitizer)
+#define HAVE_RES 1
+#include <sanitizer/allocator_interface.h>
+#endif
+#endif
+#include <dirent.h>
+static int res_on = 0, res_tag = -1 ;
+static char res_tmp [600] ;
+#define RTAB (1 << 16)
+static struct { const volatile void *p ; size_t sz ; int tag ; } rtab [RTAB] ;		/* open addressing; p == (void*) 1 is a tombstone */
+static void res_malloc_hook (const volatile void *p, size_t sz)
+{	if (! res_on || ! p) return ;
+	size_t i = ((uintptr_t) p >> 4) * 2654435761u % RTAB ;
+	for (int k = 0 ; k < RTAB ; k++, i = (i + 1) % RTAB)
+		if (rtab [i].p == NULL || rtab [i].p == (void *) 1) { rtab [i].p = p ; rtab [i].sz = sz ; rtab [i].tag = res_tag ; return ; }
+}
+static void res_free_hook (const volatile void *p)
+{	if (! res_on || ! p) return ;
+	size_t i = ((uintptr_t) p >> 4) * 2654435761u % RTAB ;
+	for (int k = 0 ; k < RTAB && rtab [i].p != NULL ; k++, i = (i + 1) % RTAB)
+		if (rtab [i].p == p) { rtab [i].p = (void *) 1 ; return ; }
+}
+static int count_dir (const char *d)
+{	DIR *dir = opendir (d) ; if (! dir) return -1 ;
+	int n = 0 ; struct dirent *e ; int own = dirfd (dir) ;
+	while ((e = readdir (dir)) != NULL) { if (e->d_name [0] == '.') continue ; if (atoi (e->d_name) == own && ! strcmp (d, "/proc/self/fd")) continue ; n ++ ; }
+	closedir (dir) ;
+	return n ;
+}
+static int res_fd_base = 0, res_fd_held [NHANDLE], res_tmp_held [NHANDLE], res_fd_before, res_tmp_before ;
+static int res_harness_owned (const volatile void *p) ;
+static void res_report (int h)
+{	if (! res_on) return ;
+	long blocks = 0 ; size_t bytes = 0, first = 0 ;
+	for (size_t i = 0 ; i < RTAB ; i++)
+		if (rtab [i].p != NULL && rtab [i].p != (void *) 1 && rtab [i].tag == h && ! res_harness_owned (rtab [i].p))
+		{	if (! blocks) first = rtab [i].sz ; blocks ++ ; bytes += rtab [i].sz ; rtab [i].tag = -2 ; }
+	int fds = res_fd_base, tmps = 0 ;
+	res_fd_held [h] = 0 ; res_tmp_held [h] = 0 ;
+	for (int k = 0 ; k < NHANDLE ; k++) { fds += res_fd_held [k] ; tmps += res_tmp_held [k] ; }
+	printf (" lk=%ld:%zu:%zu fdl=%d tmpl=%d", blocks, bytes, first, count_dir ("/proc/self/fd") - fds, count_dir (res_tmp) - tmps) ;
+}
+
 static VIO_MEM stores [NSTORE] ;
 static SNDFILE *handles [NHANDLE] ;
 static int hstore [NHANDLE] ;
@@ -187,6 +236,12 @@ static void store_digests (int sid, sf_count_t dataoffset)
 
 /* sequential-decode reference per handle and caller type (C06 oracle) */
 static void *refbuf [NHANDLE][4] ; static long long reflen [NHANDLE][4] ;
+static int res_harness_owned (const volatile void *p)
+{	if (p == (void *) linebuf) return 1 ;
+	for (int s = 0 ; s < NSTORE ; s++) if (p == (void *) stores [s].data) return 1 ;
+	for (int h = 0 ; h < NHANDLE ; h++) for (int k = 0 ; k < 4 ; k++) if (p == refbuf [h][k]) return 1 ;
+	return 0 ;
+}
 static int tindex (char t) { return t == 's' ? 0 : t == 'i' ? 1 : t == 'f' ? 2 : 3 ; }
 static void ref_clear (int h) { for (int k = 0 ; k < 4 ; k++) { free (refbuf [h][k]) ; refbuf [h][k] = NULL ; reflen [h][k] = 0 ; } }
 
@@ -385,6 +440,7 @@ static void do_open (void)
 	if (mode == 'w') { stores [sid].len = 0 ; }
 	stores [sid].pos = 0 ;
 	hroute [h] = route ; hfd [h] = -1 ; hembed [h] = pre ;
+	if (res_on) { res_fd_before = count_dir ("/proc/self/fd") ; res_tmp_before = count_dir (res_tmp) ; }
 	if (route == 'v')
 		handles [h] = sf_open_virtual (&vio_mem_io, m, &info, &stores [sid]) ;
 	else
@@ -421,6 +477,7 @@ static void do_open (void)
 			printf (" fdalive=%d", alive) ; if (alive) close (hfd [h]) ; hfd [h] = -1 ;
 			} ;
 		if (route != 'v') { char path [512] ; store_path (sid, path, sizeof (path)) ; unlink (path) ; }
+		res_report (h) ;
 		printf ("\n") ;
 		return ;
 		}
@@ -431,6 +488,11 @@ static void do_open (void)
 	printf (" rpos=%lld wpos=%lld last_op=%d", (long long) p->read_current, (long long) p->write_current, p->last_op) ;
 	region_fields (h) ;
 	check_invariants (h) ;
+	if (res_on)
+	{	/* what this handle legitimately holds: descriptors other than the caller's own, temporary files */
+		res_fd_held [h] = count_dir ("/proc/self/fd") - res_fd_before - (hfd [h] >= 0 ? 1 : 0) ; res_tmp_held [h] = count_dir (res_tmp) - res_tmp_before ;
+		printf (" fdheld=%d tmpheld=%d", res_fd_held [h], res_tmp_held [h]) ;
+		} ;
 	printf ("\n") ;
 }
 
@@ -452,6 +514,7 @@ static void do_close (void)
 		{ char path [512] ; store_path (hstore [h], path, sizeof (path)) ; unlink (path) ; }
 		} ;
 	store_digests (hstore [h], off) ;
+	res_report (h) ;
 	printf ("\n") ;
 }
 
@@ -652,6 +715,17 @@ int main (int argc, char **argv)
 	signal (SIGCHLD, SIG_IGN) ; signal (SIGPIPE, SIG_IGN) ;
 	if (getenv ("SFDRIVE_TMP")) tmpdir = getenv ("SFDRIVE_TMP") ;
 	mkdir (tmpdir, 0755) ;
+	if (getenv ("SFD_RES"))
+	{	snprintf (res_tmp, sizeof (res_tmp), "%s/lt_%d", tmpdir, (int) getpid ()) ; mkdir (res_tmp, 0755) ; setenv ("TMPDIR", res_tmp, 1) ;
+		{	/* warm-up: one-time allocations of the C library (time zone data, stdio, locale, error strings) must not be charged to a handle */
+			time_t t0 = 86400 ; struct tm tmv ; char wb [128] ; localtime_r (&t0, &tmv) ; gmtime_r (&t0, &tmv) ; tzset () ; (void) localtime (&t0) ; (void) gmtime (&t0) ;
+			strftime (wb, sizeof (wb), "%c", &tmv) ; snprintf (wb, sizeof (wb), "%f %s", 1.5, strerror (ENOENT)) ;
+			char wp [700] ; snprintf (wp, sizeof (wp), "%s/warm", res_tmp) ; FILE *wf = fopen (wp, "wb+") ; if (wf) { fputs ("x", wf) ; fclose (wf) ; remove (wp) ; }
+			} ;
+#ifdef HAVE_RES
+		__sanitizer_install_malloc_and_free_hooks (res_malloc_hook, res_free_hook) ; res_on = 1 ;
+#endif
+		} ;
 	setvbuf (stdout, NULL, _IOFBF, 1 << 16) ;
 	while ((len = getline (&linebuf, &linecap, in)) >= 0)
 	{	lineno ++ ;
@@ -659,6 +733,8 @@ int main (int argc, char **argv)
 		for (char *s = strtok (linebuf, " \t\r\n") ; s && ntok < 69999 ; s = strtok (NULL, " \t\r\n")) toks [ntok++] = s ;
 		if (ntok == 0 || toks [0][0] == '#') continue ;
 		const char *op = toks [0] ;
+		res_tag = (ntok > 1 && strcmp (op, "store") && strcmp (op, "fault") && strcmp (op, "calls") && toks [1][0] >= '0' && toks [1][0] <= '9') ? atoi (toks [1]) : (ntok > 2 && ! strcmp (op, "chunk")) ? atoi (toks [2]) : -1 ;
+		if (res_on && res_fd_base == 0) res_fd_base = count_dir ("/proc/self/fd") ;
 		if (! strcmp (op, "open")) do_open () ;
 		else if (! strcmp (op, "close")) do_close () ;
 		else if (! strcmp (op, "w")) do_rw (1) ;
@@ -711,6 +787,19 @@ int main (int argc, char **argv)
 				} ;
 			printf ("\n") ;
 			}
+		else if (! strcmp (op, "own"))
+		{	/* own <h>: which owning fields of SF_PRIVATE (order of psf_close) hold a block, which close hooks are installed, live blocks of the handle */
+			int h = tokll (1) ;
+			if (! handles [h]) { printf ("%d own nohandle=1\n", lineno) ; continue ; }
+			SF_PRIVATE *p = P (h) ;
+			const void *f [] = { p->header.ptr, p->container_data, p->codec_data, p->interleave, p->dither, p->peak_info, p->broadcast_16k, p->loop_info, p->instrument,
+				p->cues, p->channel_map, p->format_desc, p->strings.storage, p->rchunks.chunks, p->wchunks.chunks, p->iterator, p->cart_16k } ;
+			unsigned mask = 0 ; for (unsigned k = 0 ; k < sizeof (f) / sizeof (f [0]) ; k++) if (f [k]) mask |= 1u << k ;
+			long blocks = 0, payload = 0 ;
+			for (size_t i = 0 ; i < RTAB ; i++) if (rtab [i].p != NULL && rtab [i].p != (void *) 1 && rtab [i].tag == h && ! res_harness_owned (rtab [i].p)) blocks ++ ;
+			if (p->wchunks.chunks) for (uint32_t k = 0 ; k < p->wchunks.used ; k++) if (p->wchunks.chunks [k].data) payload ++ ;
+			printf ("%d own mask=%x hooks=%d%d blocks=%ld payload=%ld\n", lineno, mask, p->codec_close != NULL, p->container_close != NULL, blocks, payload) ;
+			}
 		else if (! strcmp (op, "state")) { int h = tokll (1) ; if (handles [h]) printf ("%d state dig=%016llx\n", lineno, (unsigned long long) state_digest (h)) ; else printf ("%d state nohandle=1\n", lineno) ; }
 		else if (! strcmp (op, "err"))
 		{	SNDFILE *f = toks [1][0] == '-' ? NULL : handles [tokll (1)] ; const char *e = sf_strerror (f) ;
@@ -726,5 +815,6 @@ int main (int argc, char **argv)
 		}
 	for (int h = 0 ; h < NHANDLE ; h++) if (handles [h]) sf_close (handles [h]) ;
 	for (int s = 0 ; s < NSTORE ; s++) vio_free (&stores [s]) ;
+	if (res_tmp [0]) rmdir (res_tmp) ;
 	return 0 ;
 }
